@@ -173,6 +173,19 @@ def _tokens(expr, env):
     return out
 
 
+def _stores_delegated(P, f):
+    """names of package helpers called from f (as statements) that store into a grid's _ds themselves: the path rules below read the stores of f only"""
+    from ..loader import FuncInfo
+    from ..rules.lazy import all_ds_stores
+    out = []
+    for st in iter_stmts(f.node.body):
+        if isinstance(st, ast.Expr) and isinstance(st.value, ast.Call):
+            t = P.resolve_expr(f.module, st.value.func, f)
+            if isinstance(t, FuncInfo) and t.node is not f.node and all_ds_stores(P, t, depth=1):
+                out.append(t.name)
+    return out
+
+
 def _derived_from_existing(run, P):
     """When one representation of an element centre is already stored (e.g. face_lon/face_lat supplied by the file) and the
     other is being populated, the new one must be computed FROM the stored one: on every path where "<k>_lon" is present,
@@ -225,7 +238,9 @@ def _derived_from_existing(run, P):
                 if have not in stored[0] and not any(tk.startswith(kind_ + "_") and tk.split("_")[1] in (("lon", "lat") if have.endswith("lon") else ("x", "y", "z")) for tk in stored[0]):
                     bad = (p, f"with {have} already stored (e.g. supplied by the source file) and {want} absent, the value stored under {want} is computed from {sorted(stored[0])}, not from the stored {have}: the two representations of the same centre disagree")
                     break
-            if bad:
+            if bad and "is not stored on a path" in bad[1] and _stores_delegated(P, f):
+                run.incomplete("F-PATH/derived-from-stored", c, where(f), f"{want} is stored by {_stores_delegated(P, f)}, a helper this path rule does not follow")
+            elif bad:
                 run.violation("F-PATH/derived-from-stored", c, where(f), bad[1])
             else:
                 run.holds("F-PATH/derived-from-stored", c, where(f), f"on all {len(rel)} path(s) with {have} present and {want} absent, {want} is derived from {have}")
@@ -391,6 +406,22 @@ def _live_defs(P, relpath, prefix):
     return [f for f in m.all_funcs if f.name.startswith(prefix) and m.defs.get(f.name) is f]
 
 
+def _divides_by_length(P, f, call, depth=0, seen=None):
+    """the call is _normalize_xyz* / sqrt / norm, or a call of a package function that makes such a call on every... (any) path, two levels deep"""
+    from ..loader import FuncInfo
+    nm = (dotted(call.func) or [""])[-1]
+    if nm.startswith("_normalize_xyz") or nm in ("sqrt", "norm"):
+        return True
+    if depth >= 2:
+        return False
+    t = P.resolve_expr(f.module, call.func, f)
+    seen = seen or set()
+    if isinstance(t, FuncInfo) and t.key not in seen:
+        seen.add(t.key)
+        return any(isinstance(n, ast.Call) and _divides_by_length(P, t, n, depth + 1, seen) for n in ast.walk(t.node))
+    return False
+
+
 def _xyz_helpers(run, P):
     """_xyz_to_lonlat_rad*: (1) when `normalize` is requested the components reach arcsin/arctan2 only after a division by the vector's
     LENGTH (_normalize_xyz*, or / sqrt(x*x+y*y+z*z)) - a division by the squared length alone is exact for unit input and wrong otherwise;
@@ -412,9 +443,7 @@ def _xyz_helpers(run, P):
                 ok = False
                 for e in p.events:
                     for n in ast.walk(e):
-                        if isinstance(n, ast.Call) and (dotted(n.func) or [""])[-1].startswith("_normalize_xyz"):
-                            ok = True
-                        if isinstance(n, ast.Call) and (dotted(n.func) or [""])[-1] in ("sqrt", "norm"):
+                        if isinstance(n, ast.Call) and _divides_by_length(P, f, n):
                             ok = True
                 if not ok:
                     bad += 1
@@ -427,14 +456,19 @@ def _xyz_helpers(run, P):
         # ---- (2)
         c = f"{f.key}:pole-snap-window"
         mask = None
-        for st in iter_stmts(f.node.body):
-            if isinstance(st, ast.Assign) and isinstance(st.targets[0], ast.Name) and any(isinstance(n, ast.Call) and (dotted(n.func) or [""])[-1] in ("abs", "absolute", "fabs") for n in ast.walk(st.value)):
-                uses = [s2 for s2 in iter_stmts(f.node.body) if isinstance(s2, ast.Assign) and isinstance(s2.value, ast.Call) and (dotted(s2.value.func) or [""])[-1] == "where" and s2.value.args and norm(s2.value.args[0]) == st.targets[0].id]
-                if uses:
-                    mask = st
+        from ..astutil import InterDefs
+        host = f
+        for g in InterDefs(P, f, depth=2).scope:
+            for st in iter_stmts(g.node.body):
+                if isinstance(st, ast.Assign) and isinstance(st.targets[0], ast.Name) and any(isinstance(n, ast.Call) and (dotted(n.func) or [""])[-1] in ("abs", "absolute", "fabs") for n in ast.walk(st.value)):
+                    uses = [s2 for s2 in iter_stmts(g.node.body) if isinstance(s2, ast.Assign) and isinstance(s2.value, ast.Call) and (dotted(s2.value.func) or [""])[-1] == "where" and s2.value.args and norm(s2.value.args[0]) == st.targets[0].id]
+                    if uses and mask is None:
+                        mask = st
+                        host = g
         if mask is None:
             run.incomplete("F-PATH/pole-snap", c, where(f), "pole mask not found")
             continue
+        f_report, f = f, host
         v = mask.value
         ok = isinstance(v, ast.Compare) and len(v.ops) == 1 and isinstance(v.ops[0], (ast.Gt, ast.GtE)) and isinstance(v.comparators[0], ast.BinOp) and isinstance(v.comparators[0].op, ast.Sub) \
             and norm(v.comparators[0].left) in ("1.0", "1") and norm(v.comparators[0].right) in ("ERROR_TOLERANCE",)
@@ -466,7 +500,9 @@ def _repopulate_rewrites_both(run, P):
             if not want <= stored:
                 missing = sorted(want - stored)
                 break
-        if missing:
+        if missing and _stores_delegated(P, f):
+            run.incomplete("F-PATH/repopulate-both", c, where(f), f"{missing} are not stored by the function itself; stores are made by {_stores_delegated(P, f)}, which this path rule does not follow")
+        elif missing:
             run.violation("F-PATH/repopulate-both", c, where(f), f"with repopulate=True a path rewrites only part of the centre: {missing} keep their old values while the other representation is recomputed")
         else:
             run.holds("F-PATH/repopulate-both", c, where(f), f"repopulate=True rewrites lon, lat, x, y, z on all {len(paths)} paths")
